@@ -5,8 +5,9 @@
    A history is a list of calls (Ins / Del / Vac / Reopen / Search) made by a caller that keeps the table
    of live rows `tbl` (what the get_vector callbacks answer from); `run0 p ops` is the world (index state
    + table) after the history.  `clean p w0 ops`: no insert of the history failed half way (an insert
-   fails only when it meets a deleted node).  `class_of` is 0 while no node has been deleted, 1 once
-   some node is deleted, 2 once the entry point is deleted (open findings F-C25-4 / F-C25-2).
+   fails only when it meets a deleted node).  `class_of` is 0 while no node has been deleted and no
+   neighbour list is full, 1 once some node is deleted, 2 once the entry point is deleted, 3 when no node is
+   deleted but some neighbour list has reached its capacity (open findings F-C25-4 / F-C25-2 / F-C25-5).
    Tree: /repo at 4d4f2e6 (F-C25-1 phantom results and F-C25-3 slot offsets repaired). *)
 From Coq Require Import ZArith List Bool.
 From TV Require Import Model.Hnsw Model.Sq8 Proof.HnswHeap Proof.HnswSearch Proof.HnswFuel Proof.HnswSound Proof.HnswAll Proof.HnswInv1 Proof.HnswComplete Proof.Sq8.
@@ -74,6 +75,19 @@ Theorem small_index_complete_refuted :
   a_get 3 (tbl (run0 wit_p1 wit4)) = Some [6;0] /\
   search wit_p1 (getv_of (tbl (run0 wit_p1 wit4))) (ix (run0 wit_p1 wit4)) [0;0] 100 64 = SOk [(1, Fin 4)].
 Proof. exact small_index_complete_refuted_l. Qed.
+
+(* completeness on a small index also fails without any delete once neighbour lists are full (class 3,
+   open finding F-C25-5): with m = 16 the 34th inserted node gets no back-link (all 33 others are full)
+   and is never found, not even by a search for its own vector with width 64 *)
+Theorem backlink_dropped_refuted :
+  wf_ops wit_p5 w0 wit5 = true /\ class_of (ix (run0 wit_p5 wit5)) = 3 /\ clean wit_p5 w0 wit5 = true /\
+  length (nodes (ix (run0 wit_p5 wit5))) = 34%nat /\
+  a_get 34 (tbl (run0 wit_p5 wit5)) = Some [34;0] /\
+  match search wit_p5 (getv_of (tbl (run0 wit_p5 wit5))) (ix (run0 wit_p5 wit5)) [34;0] 100 64 with
+  | SOk l => length l = 33%nat /\ mem 34 (map fst l) = false
+  | _ => False
+  end.
+Proof. exact backlink_dropped_refuted_l. Qed.
 
 (* non-emptiness fails once the entry point is deleted (class 2, open finding F-C25-2): nothing is found
    although row 2 is live, also after vacuum and reopen, and the next insert fails *)
@@ -188,6 +202,14 @@ Check small_index_complete_refuted :
   length (nodes (ix (run0 wit_p1 wit4))) = 3%nat /\
   a_get 3 (tbl (run0 wit_p1 wit4)) = Some [6;0] /\
   search wit_p1 (getv_of (tbl (run0 wit_p1 wit4))) (ix (run0 wit_p1 wit4)) [0;0] 100 64 = SOk [(1, Fin 4)].
+Check backlink_dropped_refuted :
+  wf_ops wit_p5 w0 wit5 = true /\ class_of (ix (run0 wit_p5 wit5)) = 3 /\ clean wit_p5 w0 wit5 = true /\
+  length (nodes (ix (run0 wit_p5 wit5))) = 34%nat /\
+  a_get 34 (tbl (run0 wit_p5 wit5)) = Some [34;0] /\
+  match search wit_p5 (getv_of (tbl (run0 wit_p5 wit5))) (ix (run0 wit_p5 wit5)) [34;0] 100 64 with
+  | SOk l => length l = 33%nat /\ mem 34 (map fst l) = false
+  | _ => False
+  end.
 Check search_nonempty_refuted :
   wf_ops wit_p w0 wit2 = true /\ class_of (ix (run0 wit_p wit2)) = 2 /\ clean wit_p w0 wit2 = true /\
   a_get 2 (tbl (run0 wit_p wit2)) = Some [3;4] /\
@@ -229,6 +251,7 @@ Print Assumptions search_sound.
 Print Assumptions search_nonempty.
 Print Assumptions search_live_refuted.
 Print Assumptions small_index_complete_refuted.
+Print Assumptions backlink_dropped_refuted.
 Print Assumptions search_nonempty_refuted.
 Print Assumptions phantom_result_fixed.
 Print Assumptions insert_ok.
